@@ -59,43 +59,137 @@ GEN_FILE = os.path.join(vlib.LEAN_DIR, "TapkeeVerif", "Gen", "SpeVariant.lean")
 
 
 # ----------------------------------------------------------------------------- translator (Gen/SpeVariant.lean)
-def spe_variant(repo):
-    """where does the local strategy of routines/spe.hpp store the chosen partner?  Returns True for the in-place
-    overwrite `indices[nupdates + j] = ind1Neighbors[r]`, False for a separate vector `<v>[j] = ind1Neighbors[r]`
-    whose begin() feeds ind2; anything else is an unknown shape (broken tie, never guessed)."""
+# Two SHAPE bits of routines/spe.hpp select the model variant (both variants are modelled and proved about):
+#   spePartnersInPlace : the local strategy stores the picked partner into the shuffled index vector itself
+#   speAlphaZeroGuard  : the global normaliser alpha is protected against a vanishing maximum distance
+# They are recognised statically (tolerant of renamed locals, commuted operands, `if` vs `?:`, std:: prefixes); a shape
+# that is not recognised is NOT a failure: the bits are then decided DYNAMICALLY from the behaviour of the real routine on
+# tiny witness cases (recorded in the evidence).  Only contradictory dynamic evidence is a broken tie.  The bits merely
+# choose the model; the property oracles on the implementation's observations do not depend on them.
+def _spe_code(repo):
     src = open(os.path.join(repo, "include", "tapkee", "routines", "spe.hpp")).read()
     code = re.sub(r"/\*.*?\*/", " ", src, flags=re.S)
     code = re.sub(r"//[^\n]*", " ", code)
-    m = re.findall(r"(\w+)\s*\[\s*([^\]]+?)\s*\]\s*=\s*ind1Neighbors\s*\[\s*r\s*\]\s*;", code)
-    if len(m) != 1:
-        raise ValueError("spe.hpp: expected exactly one statement `<vector>[..] = ind1Neighbors[r];`, found %d" % len(m))
-    target, index = m[0]
+    return code.replace("std::", "").replace("tapkee::", "")
+
+
+def spe_variant(repo):
+    """True: partner written into the shuffled vector (`S[a + b] = H[r]`); False: into another vector (`V[j] = H[r]`);
+    None: shape not recognised"""
+    code = _spe_code(repo)
+    m = re.search(r"random_shuffle\s*\(\s*(\w+)\s*\.\s*begin", code)
+    shuffled = m.group(1) if m else None
+    rv = re.findall(r"(\w+)\s*=\s*[^;{}]*\buniform_random\s*\(\s*\)[^;{}]*;", code)
+    if shuffled is None or len(rv) != 1:
+        return None
+    st = re.findall(r"(\w+)\s*\[\s*([^\]]+?)\s*\]\s*=\s*(\w+)\s*\[\s*%s\s*\]\s*;" % re.escape(rv[0]), code)
+    if len(st) != 1:
+        return None
+    target, index, _helper = st[0]
     index = re.sub(r"\s+", "", index)
-    if target == "indices" and index in ("nupdates+j", "j+nupdates"):
+    if target == shuffled and re.fullmatch(r"\w+\+\w+", index):
         return True
-    if target != "indices" and index == "j" and re.search(r"\bIndices\s+%s\b" % re.escape(target), code) \
-            and re.search(r"%s\s*\.\s*begin\s*\(\s*\)" % re.escape(target), code):
+    if target != shuffled and re.fullmatch(r"\w+", index) and (
+            re.search(r"\b%s\s*\.\s*begin" % re.escape(target), code) or len(re.findall(r"\b%s\s*\[" % re.escape(target), code)) >= 2):
         return False
-    raise ValueError("spe.hpp: unrecognised partner store `%s[%s] = ind1Neighbors[r]`" % (target, index))
+    return None
 
 
 def spe_alpha_guard(repo):
-    """is the global strategy's `alpha` guarded against a vanishing maximum distance?"""
-    src = open(os.path.join(repo, "include", "tapkee", "routines", "spe.hpp")).read()
-    code = re.sub(r"/\*.*?\*/", " ", src, flags=re.S)
-    code = re.sub(r"//[^\n]*", " ", code)
-    m = re.findall(r"\balpha\s*=\s*([^;]+);", code)
-    exprs = [re.sub(r"\s+", "", e) for e in m if re.sub(r"\s+", "", e) not in ("0.0", "0")]
-    if exprs == ["1.0/max*std::sqrt(2.0)"]:
-        return False
-    if exprs in (["max>0.0?1.0/max*std::sqrt(2.0):0.0"], ["max>0?1.0/max*std::sqrt(2.0):0.0"]):
-        return True
-    raise ValueError("spe.hpp: unrecognised assignment(s) to alpha: %r" % (exprs,))
+    """True / False / None (not recognised): is the division by the maximum distance protected by a comparison of that
+    maximum with zero (in a `?:` or an enclosing / preceding `if`)?"""
+    code = _spe_code(repo)
+    assigns = [m for m in re.finditer(r"\balpha\s*=\s*([^;]+);", code)]
+    nonzero = [m for m in assigns if re.sub(r"\s+", "", m.group(1)) not in ("0", "0.0", "0.")]
+    if not assigns or not nonzero:
+        return None
+    seg = re.sub(r"\s+", "", code[assigns[0].start():nonzero[-1].end()])
+    # the name of the maximum: the divisor in the expression that also contains sqrt(2...)
+    expr = re.sub(r"\s+", "", " ".join(m.group(1) for m in nonzero))
+    if "sqrt(2" not in expr:
+        return None
+    dv = re.findall(r"/\(?(\w+)\)?", expr)
+    dv = [d for d in dv if not re.fullmatch(r"[0-9.]+", d)]
+    if len(set(dv)) != 1:
+        return None
+    mx = re.escape(dv[0])
+    zero = r"0(?:\.0*)?"
+    guard = re.search(r"%s(>|!=)%s(?![0-9.])|(?<![0-9.])%s(<|!=)%s\b|%s==%s(?![0-9.])|(?<![0-9.])%s==%s\b" % (mx, zero, zero, mx, mx, zero, zero, mx), seg)
+    return bool(guard)
+
+
+def _simulate_local(N, nb, k, nup, perms, unif, inplace):
+    idx = list(range(N))
+    c = 0
+    out = []
+    for pi in perms:
+        idx = [idx[p] for p in pi]
+        partners = []
+        for j in range(nup):
+            partners.append(nb[idx[j]][int(math.floor(unif[c] * (k - 1)))])
+            c += 1
+        if inplace:
+            for j in range(nup):
+                idx[nup + j] = partners[j]
+        out += [(idx[j], partners[j]) for j in range(nup)]
+    return out
+
+
+def dynamic_shape(ctx, need_variant, need_guard):
+    """decide the shape bits from the behaviour of the real routine on tiny witness cases (streams harness)"""
+    sflags = ["-g1" if f == "-g" else f for f in vlib.HARNESS_FLAGS]
+    binary, log = ctx.build_harness("c19_rand.cpp", name="c19_rand_streams", extra=["-DC19_STREAMS"], flags=sflags)
+    if not binary:
+        raise ValueError("shape of spe.hpp not recognised and the harness does not build: " + log[-400:])
+    inplace = guard = None
+    if need_guard:
+        out = ctx.run_impl_cases(binary, ["spe N=2 d=1 g=1 k=0 nup=1 T=1 tol=1/8 seed=1 mode=approx dm=0,0,0,0 y0=0,1 np=1"])
+        if not out or out[0].startswith("abort:"):
+            raise ValueError("dynamic shape decision (alpha guard): the witness case aborts: %s" % out[:1])
+        guard = fields("x " + out[0]).get("fin") == "1"
+    if need_variant:
+        r = vlib.SplitMix64(777)
+        lines, meta = [], []
+        for _ in range(12):
+            N = r.range(4, 6)
+            k = r.range(1, 2)
+            nb = random_lists(r, N, k)
+            nup = N // 2
+            T = 5
+            unif = [Fraction(r.below(8), 8) for _ in range(T * nup)]
+            lines.append(spe_line(N, 1, 0, k, nup, T, Fraction(1, 8), r.below(1000), nb, small_dm(r, N), [[Fraction(0)]] * N, unif, "idx")
+                         + " np=%d" % T)
+            meta.append((N, nb, k, nup, unif))
+        outs = ctx.run_impl_cases(binary, lines)
+        ok = {True: True, False: True}
+        for (N, nb, k, nup, unif), io in zip(meta, outs):
+            if io.startswith("abort:"):
+                raise ValueError("dynamic shape decision (partner store): a witness case aborts: " + io)
+            o = fields("x " + io)
+            perms = [list(map(int, p.split(","))) for p in o["perms"].split(";")]
+            pairs = parse_pairs(o["pairs"])
+            for v in (True, False):
+                if _simulate_local(N, nb, k, nup, perms, [float(u) for u in unif], v) != pairs:
+                    ok[v] = False
+        if ok[True] == ok[False]:
+            raise ValueError("dynamic shape decision (partner store) is contradictory: in-place matches=%s, separate matches=%s"
+                             % (ok[True], ok[False]))
+        inplace = ok[True]
+    return inplace, guard
 
 
 def translate(ctx):
     inplace = spe_variant(vlib.REPO)
     guard = spe_alpha_guard(vlib.REPO)
+    how = {"partner_store": "recognised statically", "alpha_guard": "recognised statically"}
+    if inplace is None or guard is None:
+        dyn_inplace, dyn_guard = dynamic_shape(ctx, inplace is None, guard is None)
+        if inplace is None:
+            inplace = dyn_inplace
+            how["partner_store"] = "flag determined dynamically (shape of the statement not recognised)"
+        if guard is None:
+            guard = dyn_guard
+            how["alpha_guard"] = "flag determined dynamically (shape of the assignment not recognised)"
     text = ("/-! GENERATED by checks/c19.py (translate) from include/tapkee/routines/spe.hpp — do not edit.\n"
             "    Where the local strategy of `spe_embedding` stores the partner it picked:\n"
             "    `true`  : `indices[nupdates + j] = ind1Neighbors[r]` (in place, the pinned commit);\n"
@@ -107,10 +201,12 @@ def translate(ctx):
             "def speAlphaZeroGuard : Bool := %s\n\n"
             "end TapkeeVerif.Gen\n" % ("true" if inplace else "false", "true" if guard else "false"))
     changed = vlib.write_if_changed(GEN_FILE, text)
-    ctx.log("Gen/SpeVariant.lean %s (partners %s)" % ("regenerated" if changed else "unchanged",
-                                                    "in place" if inplace else "in a separate vector"))
+    ctx.log("Gen/SpeVariant.lean %s (partners %s [%s]; alpha %s [%s])" % (
+        "regenerated" if changed else "unchanged", "in place" if inplace else "in a separate vector", how["partner_store"],
+        "guarded" if guard else "unguarded", how["alpha_guard"]))
     ctx.extra["spe_partner_store"] = "in-place overwrite of indices" if inplace else "separate vector"
     ctx.extra["spe_alpha_zero_guard"] = guard
+    ctx.extra["spe_shape_bits_how"] = how
 
 
 # ----------------------------------------------------------------------------- numbers
